@@ -341,6 +341,13 @@ def check_variant(ctx, b, p, v, res0, vres, iv, rep, scales):
 
 # ------------------------------------------------------------------------------------------
 def run(ctx, fixed=None):
+    _run_main(ctx, fixed)
+    if fixed is None:
+        import reuse_common
+        reuse_common.reuse_check(ctx, "C03")
+
+
+def _run_main(ctx, fixed=None):
     rng = ctx.rng
     quick = ctx.quick()
     # ---------------- stream 1: 1D spectra with given moments
